@@ -55,7 +55,7 @@ func init() {
 			"entry-point contracts: callers pass non-nil options to ParseRealtime, a non-nil hash.Hash, and call Hash/Root/Next/ExportToCsv/BuildJournal with non-nil receivers/arguments",
 			"proto.Unmarshal returning nil guarantees proto2 required fields are set and repeated message elements are non-nil; proto.HasExtension(m, X) == true guarantees m non-nil and GetExtension(m, X) of X's declared Go type, non-nil",
 			"pointer-like results of library calls are non-nil when the paired error is nil (or there is no error result), except regexp Find* and proto.GetExtension",
-			"encoding/csv with FieldsPerRecord == 0 returns records with as many fields as the first record A String / Error method does not hand a value of its own type to a fmt / log formatter with a verb that calls the method again (recursion through the library, invisible in the module's call graph).",
+			"encoding/csv with FieldsPerRecord == 0 returns records with as many fields as the first record A String / Error method does not hand a value of its own type to a fmt / log formatter with a verb that calls the method again (recursion through the library, invisible in the module's call graph). A map kept in a struct field and assigned into is made in every construction of the struct, in a block that dominates the constructor's returns.",
 		},
 		Rules: []Rule{
 			{Name: "G13", Doc: "the pointers the parent chase follows (Stop.Parent) address elements of the final stops list and that list is not compacted or re-allocated after they were taken: the acyclicity the G4 chase lemma relies on is that of the linked objects, not of stale slots", MinInstances: 8, Run: runRefRules},
@@ -68,6 +68,7 @@ func init() {
 				runG5(c, e)
 				runInitConstants(c)
 				runUnmarshalDiscipline(c)
+				runFieldMapsMade(c, scope, "G1")
 			}},
 		},
 	})
